@@ -25,7 +25,13 @@ fuzz_target!(|data: &[u8]| {
         osan::well_formed(&out, sep, lowercase, keep_zeros).unwrap_or_else(|e| panic!("C16: {input:?} -> {out:?}: {e}"));
         match max_length {
             None => assert_eq!(out, osan::model(&input, &sep.to_string(), lowercase, keep_zeros), "C16: contract mismatch for {input:?}"),
-            Some(ml) => assert!(osan::bounded_ok(&out, &input, sep, lowercase, keep_zeros, ml), "C16: bounded output {out:?} not a prefix of the contract output for {input:?}"),
+            Some(ml) => {
+                let full = osan::model(&input, &sep.to_string(), lowercase, keep_zeros);
+                if full.chars().count() <= ml {
+                    assert_eq!(out, full, "C16: the contract output fits max_length={ml} but was shortened for {input:?}");
+                }
+                assert!(osan::bounded_ok(&out, &input, sep, lowercase, keep_zeros, ml), "C16: bounded output {out:?} not a prefix of the contract output for {input:?}")
+            }
         }
     }
     assert_eq!(z.sanitize(&out), out, "C16: not idempotent on {input:?}");
